@@ -71,8 +71,40 @@ NAME_POOL = ['A', 'b', 'Bx', 'a1', 'Z', 'M', 'mm', 'Q9']
 HOOKS = ('setUp', 'tearDown', 'testSetUp', 'testTearDown')
 
 
+# Instance layers are arbitrary objects: their __name__ need not be an
+# identifier.  Names with characters that mean something in a regular
+# expression, and names that differ from one another only where one of them has
+# a dot (layer names end up in dotted paths, in --resume-layer arguments and
+# next to --layer patterns).
+EXOTIC_NAMES = ['db.Layer', 'db_Layer', 'dbxLayer', 'C++', 'DB(sqlite)',
+                'a|b', 'x*', '[old]', 'Lay$', '^top', 'q?', 'a\\b', 'b.',
+                'A.b', 'A-b', '{2}']
+P_EXOTIC = 0.1
+
+
+def exoticise(rng, specs, p=None):
+    """With probability p give the instance layers of this graph names out
+    of EXOTIC_NAMES (in place); returns specs."""
+    if rng.random() >= (P_EXOTIC if p is None else p):
+        return specs
+    pool = list(EXOTIC_NAMES)
+    if rng.random() < 0.5:
+        # keep the confusable triple together
+        pool = pool[:3] + rng.sample(pool[3:], len(pool) - 3)
+    else:
+        rng.shuffle(pool)
+    ren = {}
+    for s in specs:
+        if s.get('kind') == 'inst' and pool:
+            ren[s['name']] = pool.pop(0)
+    for s in specs:
+        s['name'] = ren.get(s['name'], s['name'])
+        s['bases'] = [ren.get(b, b) for b in s['bases']]
+    return specs
+
+
 def random_layer_graph(rng, nmax=6, nmin=1, p_edge=0.4, p_inst=0.35,
-                       p_hook=0.8, names=None, multi=True):
+                       p_hook=0.8, names=None, multi=True, p_exotic=None):
     """Layer specs (topologically ordered, bases first)."""
     n = rng.randint(nmin, nmax)
     names = list(names or NAME_POOL)
@@ -105,6 +137,7 @@ def random_layer_graph(rng, nmax=6, nmin=1, p_edge=0.4, p_inst=0.35,
         specs.append({'name': names[i], 'kind': kind,
                       'bases': [specs[b]['name'] for b in bases],
                       'hooks': hooks})
+    exoticise(rng, specs, p_exotic)
     return specs
 
 
@@ -124,10 +157,10 @@ def diamond_family(rng, kind=None, p_hook=0.8, names=None):
     roots = [{'name': base, 'kind': kind, 'bases': [], 'hooks': hooks()},
              {'name': aux, 'kind': kind, 'bases': [], 'hooks': hooks()}]
     rng.shuffle(roots)
-    return roots + [
+    return exoticise(rng, roots + [
         {'name': left, 'kind': kind, 'bases': [base], 'hooks': hooks()},
         {'name': right, 'kind': kind, 'bases': [base], 'hooks': hooks()},
-        {'name': top, 'kind': kind, 'bases': tb, 'hooks': hooks()}]
+        {'name': top, 'kind': kind, 'bases': tb, 'hooks': hooks()}])
 
 
 def mi_sibling_family(rng, kind=None, p_hook=0.8):
@@ -152,7 +185,7 @@ def mi_sibling_family(rng, kind=None, p_hook=0.8):
     if rng.random() < 0.5:
         out.append({'name': w, 'kind': kind,
                     'bases': [rng.choice([a, b])], 'hooks': hooks()})
-    return out
+    return exoticise(rng, out)
 
 
 def _mro_ok(specs, base_idx):
